@@ -191,6 +191,17 @@ class Helper:
             if k in _seen:
                 return out
             _seen.add(k)
+            if e.id == func.self_name and func.cls == self.cache_class():
+                # the receiver at every call site of this method
+                got = False
+                for caller, call in self.prog.callers().get(
+                        func.qualname, []):
+                    if isinstance(call.func, ast.Attribute):
+                        for ccn in self.node_of(caller, call)[:1]:
+                            out |= self.expr_roles(call.func.value, caller,
+                                                   ccn, roles, _seen)
+                            got = True
+                return out if got else {'unknown'}
         if isinstance(e, ast.Call):
             fl = self._factory_flag(e, func, {})
             if fl is True:
@@ -340,6 +351,8 @@ class Helper:
         'os.path.abspath', 'os.path.normpath', 'os.fsdecode',
         'os.path.basename', 'os.path.split', 'os.path.realpath',
         'builtins.zip', 'builtins.filter', 'builtins.map',
+        'itertools.chain', 'itertools.chain.from_iterable',
+        'builtins.dict',
     }
 
     def container_writes(self, func):
